@@ -104,7 +104,7 @@ func (x *g) val(v pcommon.Value, depth int) {
 		// unset
 	case 6:
 		sl := v.SetEmptySlice()
-		n := rapid.IntRange(0, 3).Draw(x.t, "ln")
+		n := rapid.IntRange(0, 6).Draw(x.t, "ln")
 		for i := 0; i < n; i++ {
 			x.val(sl.AppendEmpty(), depth+1)
 		}
@@ -114,7 +114,7 @@ func (x *g) val(v pcommon.Value, depth int) {
 }
 
 func (x *g) attrs(m pcommon.Map, depth int) {
-	n := rapid.IntRange(0, 4).Draw(x.t, "na")
+	n := rapid.IntRange(0, 6).Draw(x.t, "na")
 	for i := 0; i < n; i++ {
 		x.val(m.PutEmpty(x.key()), depth)
 	}
@@ -433,6 +433,7 @@ func TestReplay(t *testing.T) {
 	}
 	sort.Strings(files)
 	for _, path := range files {
+		fmt.Printf("REPLAY-START property=C17 file=%s\n", path)
 		msg := ""
 		if strings.Contains(string(cases[path]), `"stride"`) {
 			var b BulkCase
